@@ -1553,7 +1553,7 @@ def replicated(*decArgs, **decKwargs):
     return replicatedImpl
 
 def replicated_sync(*decArgs, **decKwargs):
-    def replicated_sync_impl(func, timeout = None):
+    def replicated_sync_impl(func, timeout = decKwargs.get('timeout', None)):
         """Same as replicated, but synchronous by default.
 
         :param func: arbitrary class member
